@@ -167,6 +167,8 @@ def build_unit(contract, case, contracts, world):
                 u.error, u.error_kind = "contract names parameter %s, the function has %s" % (p, argnames), "stale-contract"
                 return u
             st.env[p] = ip.make(ty, p, st)
+        for p, ty in case.closure.items():
+            st.env[p] = ip.make(ty, p, st)          # variables of the enclosing function a nested def refers to
         for p in argnames:
             if p not in st.env:
                 u.error, u.error_kind = "parameter %s of the function has no type in the contract" % p, "stale-contract"
@@ -174,6 +176,8 @@ def build_unit(contract, case, contracts, world):
         u.params = dict(st.env)
         # object invariant of self
         selfv = st.env.get(argnames[0]) if argnames else None
+        if case.closure and "self" in case.closure:
+            selfv = st.env["self"]
         cls_inv = []
         if isinstance(selfv, Ref) and isinstance(st.heap[selfv.cid], ObjCell) and not contract.qual.endswith("__init__"):
             cs = contracts.classes.get(st.heap[selfv.cid].cls)
